@@ -152,6 +152,39 @@ func solveAll(obs []*Obligation, dir string, timeoutS int, keep bool) {
 						}
 					}
 				}
+				// goal-directed trigger matching first
+				if !done && os.Getenv("GOVC_NODINST") == "" {
+					if dq := q.Directed(4); dq != nil {
+						ct := timeoutS
+						if ct > 20 {
+							ct = 20
+						}
+						f := writeQuery(dir, o.Name+".dinst", dq.Script(nil))
+						r := RunPortfolio(f, ct, "")
+						if r.Status == "unsat" {
+							r.Solver += "+dinst"
+							o.Res = r
+							done = true
+						}
+						if !keep {
+							os.Remove(f)
+						}
+						if !done && r.Status != "sat" {
+							if ab := dq.AbstractArith(); ab != nil {
+								fa := writeQuery(dir, o.Name+".dinst_abs", ab.Script(nil))
+								ra := RunPortfolio(fa, ct, "")
+								if ra.Status == "unsat" {
+									ra.Solver += "+dinst-abs"
+									o.Res = ra
+									done = true
+								}
+								if !keep {
+									os.Remove(fa)
+								}
+							}
+						}
+					}
+				}
 				for round := 0; round < 3 && !done && qf != nil; round++ {
 					suffix := ".inst"
 					if round >= 1 {
